@@ -110,3 +110,88 @@ pub fn stop() -> AllocStats {
         total:       TOTAL.with(|c| c.get()),
     }
 }
+
+/// Allocator for engines that run the Wasm interpreter: every execution
+/// allocates a zeroed 32 MiB block for the linear memory and frees it again.
+/// In this sandbox (micro-VM) the resulting mmap/munmap/page-fault churn does
+/// not scale beyond one process, so one such block is cached per thread and
+/// re-zeroed only up to the configured dirty limit (the largest linear memory
+/// the programs of the current run can reach; default: the whole block).
+pub struct BigBlockAlloc;
+
+pub const BIG_BLOCK: usize = 512 * 65536;
+
+const NCACHE: usize = 6;
+
+thread_local! {
+    static CACHED: Cell<[*mut u8; NCACHE]> = const { Cell::new([std::ptr::null_mut(); NCACHE]) };
+    static DIRTY_LIMIT: Cell<usize> = const { Cell::new(BIG_BLOCK) };
+}
+
+/// Bytes at the start of a cached block that may have been written since it
+/// was handed out (rounded up by the caller to what its programs can reach).
+pub fn set_dirty_limit(bytes: usize) { DIRTY_LIMIT.with(|d| d.set(bytes.min(BIG_BLOCK))) }
+
+fn take_cached() -> *mut u8 {
+    CACHED
+        .try_with(|c| {
+            let mut a = c.get();
+            for slot in a.iter_mut() {
+                if !slot.is_null() {
+                    let p = *slot;
+                    *slot = std::ptr::null_mut();
+                    c.set(a);
+                    return p;
+                }
+            }
+            std::ptr::null_mut()
+        })
+        .unwrap_or(std::ptr::null_mut())
+}
+
+fn put_cached(p: *mut u8) -> bool {
+    CACHED
+        .try_with(|c| {
+            let mut a = c.get();
+            for slot in a.iter_mut() {
+                if slot.is_null() {
+                    *slot = p;
+                    c.set(a);
+                    return true;
+                }
+            }
+            false
+        })
+        .unwrap_or(false)
+}
+
+unsafe impl GlobalAlloc for BigBlockAlloc {
+    unsafe fn alloc(&self, layout: Layout) -> *mut u8 {
+        if layout.size() == BIG_BLOCK {
+            let p = take_cached();
+            if !p.is_null() {
+                return p;
+            }
+        }
+        System.alloc(layout)
+    }
+
+    unsafe fn alloc_zeroed(&self, layout: Layout) -> *mut u8 {
+        if layout.size() == BIG_BLOCK {
+            let p = take_cached();
+            if !p.is_null() {
+                let n = DIRTY_LIMIT.try_with(|d| d.get()).unwrap_or(BIG_BLOCK);
+                std::ptr::write_bytes(p, 0, n);
+                return p;
+            }
+        }
+        System.alloc_zeroed(layout)
+    }
+
+    unsafe fn dealloc(&self, ptr: *mut u8, layout: Layout) {
+        if layout.size() == BIG_BLOCK && put_cached(ptr) {
+            return;
+        }
+        System.dealloc(ptr, layout)
+    }
+}
